@@ -484,3 +484,107 @@ class RequestWorkflowStatus(Unit):
 def raise_infeasible(e):
     from pyvc.engine import PathInfeasible
     raise PathInfeasible()
+
+
+# ================================================================================================
+# rejection prefixes on an ABSTRACT state (proof: for every state)
+# ================================================================================================
+class RejectionPrefixes(Unit):
+    name = "C.rejection_prefixes"
+    functions = ["orquesta.conducting.WorkflowConductor.request_workflow_status",
+                 "orquesta.conducting.WorkflowConductor.update_task_state",
+                 "orquesta.machines.WorkflowStateMachine.is_transition_valid"]
+    obligations = {
+        "C04.rws.rejected_before_any_effect": {"props": ["C04"], "text":
+            "for every state: a status request for which the workflow table has no transition at all from the current status raises InvalidWorkflowStatusTransition before any task or the workflow state is read further or written"},
+        "C11.uts.validation_before_any_effect": {"props": ["C11", "C15", "C04"], "text":
+            "for every state: update_task_state rejects a non-event (TypeError), a task unknown to the graph (InvalidTask) and a task that is neither staged nor has a record (InvalidTaskStateEntry) before anything is written"},
+    }
+    assumptions = ["the state is abstract: only the workflow status (case split) and the three membership facts are readable; every write or further call is recorded"]
+    trusted = ["z3 5.1", "pyvc interpreter"]
+
+    def splits(self, tier):
+        return [("rws", o, r) for o in st.ALL_STATUSES for r in st.ALL_STATUSES] + [("uts", None, None)]
+
+    def run_split(self, ctx, split):
+        kind, old_c, req_c = split
+        if kind == "uts":
+            return self.run_uts(ctx)
+        table = machines.WORKFLOW_STATE_MACHINE_DATA
+
+        def thunk(e):
+            e.register_input("old", old_c)
+            e.register_input("req", req_c)
+            touched = []
+
+            def gtbs(eng, statuses_, last_occurrence=True):
+                touched.append("get_tasks_by_status")
+                raise S.Unsupported("abstract state read past the rejection point")
+
+            ws = AbstractObj("workflow_state", status=old_c, get_tasks_by_status=Stub("get_tasks_by_status", gtbs))
+            c = object.__new__(conducting.WorkflowConductor)
+            c.__dict__.update(dict(_workflow_state=ws, spec=None, _graph=None, _errors="E", _outputs="O"))
+            raised, beyond = None, False
+            try:
+                e.call(conducting.WorkflowConductor.request_workflow_status, [c, req_c], {})
+            except Raised as r:
+                raised = r
+            except S.Unsupported:
+                beyond = True
+            no_transition = old_c in table and req_c != old_c and req_c not in table[old_c].values()
+            writes = [t for t in e.path.trace if t[0] in ("setattr", "setitem", "list_append", "dict_pop", "list_remove")]
+            if no_transition and old_c in table:
+                ok = raised is not None and raised.cls in (exc.InvalidWorkflowStatusTransition,) and not touched and not writes and not beyond
+                ctx.oblige("C04.rws.rejected_before_any_effect", ok, None, {"old": old_c, "req": req_c, "raised": repr(raised)})
+            else:
+                ctx.oblige("C04.rws.rejected_before_any_effect", True, None, {"old": old_c, "req": req_c})
+            ctx.canary()
+
+        ctx.eng.explore(thunk)
+
+    def run_uts(self, ctx):
+        def thunk(e):
+            in_graph = e.register_input("task_in_graph", S.mk_bool("task_in_graph"))
+            staged = e.register_input("is_staged", S.mk_bool("is_staged"))
+            has_rec = e.register_input("has_record", S.mk_bool("has_record"))
+            is_event = e.branch(e.register_input("is_event", S.mk_bool("is_event")).z)
+            graph = AbstractObj("graph", has_task=Stub("has_task", lambda eng, x: in_graph))
+
+            def get_staged_task(eng, tid, route):
+                return {"id": tid, "route": route} if eng.branch(staged.z) else None
+
+            def tasks_get(eng, key, default=None):
+                return 0 if eng.branch(has_rec.z) else default
+
+            def seq_get(eng, idx):
+                raise S.Unsupported("past the validation prefix")
+
+            ws = AbstractObj("workflow_state", get_staged_task=Stub("get_staged_task", get_staged_task),
+                             tasks=AbstractObj("tasks", get=Stub("get", tasks_get)),
+                             sequence=AbstractObj("sequence", __getitem__=Stub("getitem", lambda eng, i: {"id": "t", "route": 0, "status": st.RUNNING, "__abstract_record__": True})))
+            spec = AbstractObj("spec", tasks=AbstractObj("spec.tasks", get_task=Stub("get_task", lambda eng, x: AbstractObj("ts"))))
+            c = object.__new__(conducting.WorkflowConductor)
+            c.__dict__.update(dict(_workflow_state=ws, spec=spec, _graph=graph, _errors="E", _outputs="O"))
+            event = events.ActionExecutionEvent(st.RUNNING) if is_event else {"status": "running"}
+            raised, beyond = None, False
+            try:
+                e.call(conducting.WorkflowConductor.update_task_state, [c, "t", 0, event], {})
+            except Raised as r:
+                raised = r
+            except S.Unsupported:
+                beyond = True
+            writes = [t for t in e.path.trace if t[0] in ("setattr", "setitem", "list_append", "dict_pop", "list_remove")]
+            cls = raised.cls if raised is not None else None
+            want_type = z3.BoolVal(not is_event)
+            want_task = z3.And(z3.BoolVal(is_event), z3.Not(in_graph.z))
+            want_entry = z3.And(z3.BoolVal(is_event), in_graph.z, z3.Not(staged.z), z3.Not(has_rec.z))
+            clean = z3.BoolVal(not writes and not beyond)
+            ctx.oblige("C11.uts.validation_before_any_effect", z3.And(
+                z3.Implies(want_type, z3.And(z3.BoolVal(cls is TypeError), clean)),
+                z3.Implies(want_task, z3.And(z3.BoolVal(cls is exc.InvalidTask), clean)),
+                z3.Implies(want_entry, z3.And(z3.BoolVal(cls is exc.InvalidTaskStateEntry), clean)),
+                z3.Implies(z3.BoolVal(cls in (TypeError, exc.InvalidTask, exc.InvalidTaskStateEntry) and not beyond),
+                           z3.Or(want_type, want_task, want_entry))), None, {"is_event": is_event, "raised": repr(raised)})
+            ctx.canary()
+
+        ctx.eng.explore(thunk)
